@@ -49,10 +49,53 @@ ROUND2 = {
  "C20-mutD": ("gmd guard `d[i] >= sigma_bar` became `>`: 0/0 in the Givens cosine", "exactly repeated singular values"),
 }
 
+ROUND3 = {
+ "C01-mutE": ("demodulate flattens with ravel(order='K')", "Fortran-ordered / transposed 2-D received arrays"),
+ "C01-mutF": ("QAM constellation memoised in a class-level dict and handed out without a copy", "one object's symbols changed in place, then a new QAM of the same order"),
+ "C02-mutE": ("get_freq_response 'flat fading' fast path repeats the single tap over all bins (delay ignored)", "profile with exactly one tap at a non-zero delay"),
+ "C02-mutF": ("IFFT input work buffer reused between modulate calls, dropped only when fft_size changes", "same object re-configured to fewer used subcarriers, same number of OFDM symbols"),
+ "C03-mutE": ("a selection with exactly fft_size entries is treated as 'all carriers'", "full-length selection not in natural order (permutation, reversed slice, repeats)"),
+ "C03-mutF": ("1-D signal promotion uses num_tx_antennas regardless of the link direction", "switched direction, one receive and several transmit antennas, 1-D input"),
+ "C04-mutE": ("gmd permutation bookkeeping: invperm[j] = i instead of invperm[i] = j", "5 or more layers"),
+ "C04-mutF": ("Blast caches the receive filter; set_noise_var(None) does not reset the cache", "noise variance, decode, set_noise_var(None), decode on one object"),
+ "C05-mutE": ("get_pack_indexes treats a falsy fixed value (0, 0.0) as not fixed", "lookup with a fixed value of 0"),
+ "C05-mutF": ("periodic save moved before the repetition counter is incremented", "> 500 repetitions, interruption after a periodic save, second simulate()"),
+ "C06-mutE": ("union of unpacked values cast back to the dtype of the first operand", "overlapping grids with mixed dtype / string width"),
+ "C06-mutF": ("Result.merge takes the 'replace' branch when self.num_updates == 0 (aliases the operand's arrays)", "array-valued result merged into an empty one, then another merge/update"),
+ "C07-mutE": ("_save_to_json opens the temporary file with exclusive creation ('x')", "json results file, crash inside the final write, then any restart"),
+ "C07-mutF": ("_simulate_common_setup clears the runner only if the previous simulation finished", "simulate() interrupted after a completed combination, then simulate() on the same object"),
+ "C08-mutE": ("_update_pathloss_big_matrix returns early when the old expansion has the new channel's shape", "path loss set, then re-randomize with another split of equal totals"),
+ "C08-mutF": ("init_from_channel_matrix assigns K/Nr/Nt before the second validation", "rejected re-initialisation (ValueError) on a valid object"),
+ "C09-mutE": ("rank of the other users' channel with an absolute tolerance 1e-6", "channel scaled to about 1e-7"),
+ "C09-mutF": ("sqrt(iPu) cached at construction, used with and without water-filling", "iPu reassigned on a reused object"),
+ "C10-mutE": ("P setter returns early for None -> None (cached full filters kept)", "solve with default power, read full_W_H, randomizeF without power"),
+ "C10-mutF": ("_solve_finalize restores the norm with norm(new_F) instead of norm(new_full_F) in the stream-reduction branch", "Ns > 1 and one user orders of magnitude weaker"),
+ "C11-mutE": ("scalar-noise test isinstance(x, Number) narrowed to isinstance(x, float)", "noise variance given as int / numpy int / float32"),
+ "C11-mutF": ("own-stream covariance uses sqrt(P) F instead of full_F", "full_F that does not have power P"),
+ "C12-mutE": ("result allocated with np.zeros_like(gains)", "integer-dtype gain vector"),
+ "C12-mutF": ("removal loop also requires not np.isclose(sum(Ps), Pt)", "small absolute scale or total power within 1e-5 of a switch-on threshold"),
+ "C13-mutE": ("clamp applied through np.nonzero(PL < 0)[0] (first axis only)", "clamp policy with a distance array of 2 or more dimensions"),
+ "C13-mutF": ("inverse slope 1/(10 n) cached at construction, not refreshed by the n setter", "n changed through the setter, then an inverse query"),
+ "C14-mutE": ("skip folds the time modulo the Doppler period", "skip carrying the time past 1/Fd"),
+ "C14-mutF": ("samples summed into the previous samples array (out=) and scaled in place", "two consecutive requests of the same size, earlier block kept by the caller"),
+ "C15-mutE": ("PSK constructor applies the phase offset through setPhaseOffset (natural order)", "PSK with a non-zero offset at construction"),
+ "C15-mutF": ("gray2binary xor cascade works in place on an ndarray argument", "array argument reused by the caller after the call"),
+ "C16-mutE": ("calcTheoreticalPER caches (SNR, BER) keyed by the SNR array object", "same SNR array passed again after an in-place change"),
+ "C16-mutF": ("QAM SER passed through np.minimum.accumulate", "unordered / descending / 2-D SNR arrays"),
+ "C17-mutE": ("ndarray encoder writes ravel(order='K')", "multi-dimensional non-C-contiguous arrays"),
+ "C17-mutF": ("file-name templating rounds floats to 12 decimals", "distinct floats that agree to 12 decimals"),
+ "C18-mutE": ("phase ramp of get_shifted_root_seq memoised without the denominator in the key", "SRS then DMRS sequence with the same shift and length in one process"),
+ "C18-mutF": ("compute_ls_estimation single-antenna fast path mean(Y / s)", "one transmit antenna with a zero pilot position"),
+ "C19-mutE": ("is_point_inside_shape caches its matplotlib Path keyed on private fields", "CellWrap queried, original cell resized/rotated, queried again"),
+ "C19-mutF": ("Cell3Sec sectors created with rotation -30 instead of rotation - 30", "3-sector cell constructed with a rotation that is not a multiple of 60 degrees"),
+ "C20-mutE": ("gmd drops the invperm[i] = j update of the column swap", "at least 5 singular values in an ordering with a doubly swapped position"),
+ "C20-mutF": ("calcProjectionMatrix fast path A A^H / gram[0,0] when A^H A is (close to) diagonal", "orthogonal columns of unequal norm"),
+}
+
 
 def main():
     det, conf = {}, {}
-    for line in open(os.path.expanduser("~/detect.log")):
+    for line in open(os.path.expanduser("~/detect.log")):           # later lines (re-runs) override earlier ones
         m = re.match(r"(\S+) exit=(\d*) confirmed_inputs=(\d+) obligations=(.*)", line.strip())
         if m:
             det[m.group(1)] = {"exit": m.group(2), "confirmed_inputs": int(m.group(3)), "obligations": [o for o in m.group(4).split(",") if o]}
@@ -63,7 +106,9 @@ def main():
             if len(parts) >= 3 and parts[0].startswith("C"):
                 conf[parts[0]] = line.strip()
     n = 0
-    for mid, (what, needs) in sorted(ROUND2.items()):
+    both = dict(ROUND2)
+    both.update(ROUND3)
+    for mid, (what, needs) in sorted(both.items()):
         d = "/verif/seeded/%s" % mid
         if not os.path.isdir(d):
             print("missing", d)
@@ -73,7 +118,7 @@ def main():
         for o in dd.get("obligations", []):
             kinds.append(o)
         meta = {
-            "property": mid[:3], "name": mid, "round": 2,
+            "property": mid[:3], "name": mid, "round": 3 if mid in ROUND3 else 2,
             "what_changed": what, "needs_to_manifest": needs,
             "caught_by": dd.get("obligations", []),
             "check_exit_with_change_applied": dd.get("exit"),
